@@ -126,7 +126,10 @@ static int next(sqfs_dir_iterator_t *base, sqfs_dir_entry_t **out)
 			continue;
 		}
 
-		if (!strcmp(ent->name, ".") || !strcmp(ent->name, "..")) {
+		/* "." and "..", but also a name that holds a '/': it would
+		   become part of the path handed to the caller */
+		if (!strcmp(ent->name, ".") || !strcmp(ent->name, "..") ||
+		    strchr(ent->name, '/') != NULL) {
 			free(ent);
 			ent = NULL;
 			continue;
